@@ -205,4 +205,13 @@ impl<C: Ciphersuite> Lab<C> for ConcLab<C> {
     fn eq_bytes(&mut self, a: &[u8], b: &[u8], what: &str) -> bool {
         self.rec(a == b, what)
     }
+    fn all_distinct_generic(&mut self, xs: &[Scalar<C>], what: &str) -> bool {
+        let mut ok = true;
+        for i in 0..xs.len() {
+            for j in (i + 1)..xs.len() {
+                ok &= xs[i] != xs[j];
+            }
+        }
+        self.rec(ok, what)
+    }
 }
